@@ -532,4 +532,8 @@ func init() {
 		Variant{Name: "benign: two-segment copy in ensureCapacity (C04 view, imported obligations)", Property: "C04", File: pst, Benign: true,
 			Old: "\tfor i := 0; i < b.size; i++ {\n\t\tidx := (b.head + i) % len(b.entries)\n\t\tnewEntries[i] = b.entries[idx]\n\t}\n", New: "\tcopy(newEntries, b.entries[b.head:])\n\tcopy(newEntries[len(b.entries)-b.head:], b.entries[:b.head])\n"},
 	)
+	addVariants(
+		Variant{Name: "benign: Skip after a search-attribute container was handled", Property: "C14", File: refl, Benign: true,
+			Old: "\t\t\t// No need to descend into this type further.\n\t\t\treturn visit.Continue, nil\n", New: "\t\t\t// No need to descend into this type further.\n\t\t\treturn visit.Skip, nil\n"},
+	)
 }
